@@ -204,7 +204,7 @@ Proof.
       all: try (cbn [o_taken o_items set]; lia).
       all: cbn [o_taken o_items o_got set]; rewrite (firstn_S_nth _ _ _ En), filter_app; cbn [filter]; unfold notdone at 2; rewrite Ek, <- (od_got s O _ _ Ec); try reflexivity; symmetry; apply app_nil_r.
     + apply (Ord_vpres s); [exact O|]. destruct (o_chan c); cbn [negb]; [|repeat vstrip].
-      destruct (o_deadline c) as [d|]; [|apply vpres_refl]. destruct (d <=? now s); [|apply vpres_refl].
+      destruct (o_tmo c) as [d|]; [|repeat vstrip]. match goal with |- context [if ?b then _ else _] => destruct b end; [|repeat vstrip].
       destruct (is_running s); repeat vstrip.
   - (* StreamFinish *) destruct (getop s o) as [c|] eqn:Ec; [|exact O]. apply (Ord_vpres s); [exact O|].
     destruct (o_status c); try apply vpres_refl; destruct (is_running s); repeat vstrip.
